@@ -283,7 +283,13 @@ func (p *poller) readWriteLoop() {
 							if asyncReadEnabled {
 								c.AsyncRead()
 							} else {
-								for i := 0; i < g.MaxConnReadTimesPerEventLoop; i++ {
+								maxReadTimes := g.MaxConnReadTimesPerEventLoop
+								if ev.Events&epollEventsError != 0 {
+									// The connection is closed below: read everything
+									// the peer has sent before it hung up.
+									maxReadTimes = 1<<31 - 1
+								}
+								for i := 0; i < maxReadTimes; i++ {
 									pbuf := g.borrow(c)
 									bufLen := len(*pbuf)
 									rc, n, err := c.ReadAndGetConn(pbuf)
